@@ -24,6 +24,20 @@ def run(tier):
     segs, looks = (1500, 8) if big else (150, 6)
     frames = os.path.join(wd, "frames.ndjson")
     vlib.run_harness(["c01", "drive", "out=" + trace, "frames=" + frames, "segments=%d" % segs, "lookups=%d" % looks], timeout=3000)
+    # spec -> impl: every configuration (graph x target x silent set) of the implementation-shaped model, enumerated by TLC,
+    # built with real managers; the lookups join the trace (P-level verdicts) and are compared with the model's answer (drift)
+    cfgs = []
+    for cfgname in (("Replay_Lookup_k2.cfg", "Replay_Lookup_k3.cfg", "Replay_Lookup_big.cfg") if big else ("Replay_Lookup_k2.cfg", "Replay_Lookup_k3.cfg")):
+        b, rr = vlib.tlc_behaviours("Replay_Lookup", cfgname, workers=8 if big else 4, timeout=3000)
+        rep.add_tlc(rr, "Replay_Lookup " + cfgname)
+        cfgs += b
+    cfg_p = os.path.join(wd, "replay_cfgs.ndjson")
+    vlib.write_ndjson(cfg_p, cfgs)
+    rtrace = os.path.join(wd, "replay_trace.ndjson")
+    stride = 1 if big else 5 + vlib.seed() % 3      # quick: every 5th..7th configuration, the offset varies with the seed
+    vlib.run_harness(["c01", "replay", "in=" + cfg_p, "out=" + rtrace, "stride=%d" % stride], timeout=3000)
+    with open(trace, "a") as f, open(rtrace) as g:
+        f.write(g.read())
     res, tr = vlib.validate_trace("Trace_Lookup", "Trace_Lookup.cfg", trace, os.path.join(wd, "out.json"), timeout=3000)
     if res["consumed"] != res["total"]:
         raise vlib.ToolError("trace not fully consumed")
@@ -39,6 +53,15 @@ def run(tier):
         if v["site"] != "find_closest_nodes":
             continue
         rep.violation(v["clause"], v["site"], v["cond"], {"line": v["line"], "event": recs[v["line"] - 1]})
+    drift = [v for v in res["viol"] if v["site"] == "model"]
+    nmodel = sum(1 for e in recs if e["ev"] == "Model")
+    rep.coverage["spec_to_impl_replay"] = {"configurations_enumerated_by_tlc": len(cfgs), "replayed_on_real_clusters": nmodel,
+                                           "drift": len(drift), "drift_samples": [recs[v["line"] - 1] for v in drift[:3]]}
+    if drift:
+        print("MODEL-DRIFT module=Lookup configurations=%d drift=%d (informational: the real lookup no longer returns what the "
+              "implementation-shaped model returns; the P-level clauses judge the same lookups)" % (nmodel, len(drift)), flush=True)
+    if nmodel == 0:
+        raise vlib.ToolError("no model configuration was replayed")
     rep.coverage["acceptor_mismatches_total"] = res["nviol"]
     if not rep.unknown_violations():
         selftest(recs, wd)
